@@ -1,5 +1,6 @@
 (* C09 — EECC returns an edge-disjoint exact clique cover within the size bound.
-   Property theorems only; each is closed by [exact] of a lemma of Proofs/EeccP.v / EeccSmallP.v.
+   Property theorems only; each is closed by [exact] of a lemma of Proofs/EeccP.v / EeccGenP.v / EeccSmallP.v /
+   EeccWireP.v / EeccFastP.v.
 
    Reading: a graph is its edge list [g] (vertices are the endpoints, so there are no isolated
    vertices); [m0] the size bound; a schedule is the list [rs] of tie-break ranks, one per greedy
@@ -8,8 +9,8 @@
    [forall rs].  [eecc_run g m0 rs] is the model of [EECC.get_EECC] (Model/Eecc.v): [o_cover] the
    returned list, [o_graph] the working graph afterwards, [o_status] 0 iff the loop ended normally
    (1 = fuel |E|+1 exhausted, 2 = the ValueError of min() on an empty list). *)
-From Coq Require Import List Arith Bool.
-From GV Require Import Lib.Tree Lib.GraphE Model.Eecc Proofs.EeccP Proofs.EeccGenP Proofs.EeccFloatP Proofs.EeccSmallP Proofs.EeccWireP.
+From Coq Require Import List Arith Bool NArith.
+From GV Require Import Lib.Tree Lib.GraphE Model.Eecc Proofs.EeccP Proofs.EeccGenP Proofs.EeccFloatP Proofs.EeccSmallP Proofs.EeccWireP Proofs.EeccFastP Proofs.EeccFastSmallP.
 Import ListNotations.
 
 (* the property, at full strength (all simple graphs, all m0 >= 2, all schedules) *)
@@ -91,6 +92,66 @@ Theorem C09_check_cover_entry_agrees : forall t, t_list (c09_check_cover t) = fi
 Proof. exact check_cover_entry_agrees. Qed.
 Print Assumptions C09_check_cover_entry_agrees.
 
+(* ---- growth 2: IsolatedIntact decided without enumerating maximal cliques ----
+   GENERAL: on a loop-free graph a maximal clique shares no edge with a different maximal clique exactly when no
+   vertex outside it has two neighbours in it (equivalently: every common neighbour of two members is a member). *)
+Theorem C09_isolated_is_local :
+  forall g K, max_clique g K ->
+    ((forall K', max_clique g K' -> share_edge K K' -> same_set K' K) <->
+     (forall w a b, ~ In w K -> In a K -> In b K -> adj g w a -> adj g w b -> a = b)).
+Proof. exact isolated_closed2. Qed.
+Print Assumptions C09_isolated_is_local.
+
+(* GENERAL: the polynomial test isolated_ok_fast_b (one candidate per edge: the edge plus the common neighbours of
+   its ends; no maximal-clique enumeration) is exactly the Prop-level clause IsolatedIntact of C09_statement, for
+   every edge list without self-loops, every bound and every cover ... *)
+Theorem C09_check_isolated_fast_sound :
+  forall g m0 c, loopless g -> (isolated_ok_fast_b g m0 c = true <-> IsolatedIntact g m0 c).
+Proof. exact isolated_ok_fast_sound. Qed.
+Print Assumptions C09_check_isolated_fast_sound.
+
+(* ... and therefore the same boolean as the brute-force isolated_ok_b. *)
+Theorem C09_check_isolated_fast_eq :
+  forall g m0 c, loopless g -> isolated_ok_fast_b g m0 c = isolated_ok_b g m0 c.
+Proof. exact isolated_ok_fast_eq. Qed.
+Print Assumptions C09_check_isolated_fast_eq.
+
+(* BOUNDED, independent of the general equivalence above (reflection, vm_compute): on all 1024 edge subsets of K5,
+   every bound 1..6 and three probe covers per graph - every edge as a 2-clique, all maximal cliques, all maximal
+   cliques but the first - the polynomial test and the brute force return the same boolean (13557 probes accepted,
+   4875 rejected: C09_fast_probe_counts). *)
+Theorem C09_check_isolated_fast_agrees_upto_5 :
+  forall g m0 c, subseq g (all_pairs 5) -> 1 <= m0 <= 6 -> In c (probe_covers g) ->
+    isolated_ok_fast_b g m0 c = isolated_ok_b g m0 c.
+Proof. exact fast_agrees_upto_5. Qed.
+Print Assumptions C09_check_isolated_fast_agrees_upto_5.
+
+(* GENERAL, wire level: the entry c09_check_full_fast (run on the implementation's covers of the 25-160 vertex
+   graphs, where the brute force cannot enumerate maximal cliques) answers, for EVERY tree, exactly what c09_check
+   answers; its three answers are 1 exactly when ExactCover holds / the working graph was reported empty /
+   IsolatedIntact holds - the Prop-level clauses of C09_statement - for the simple graph, bound and cover decoded
+   from the tree (C09_norm_graph_spec says which graph that is). *)
+Theorem C09_check_full_fast_agrees : forall t, c09_check_full_fast t = c09_check t.
+Proof. exact check_full_fast_agrees. Qed.
+Print Assumptions C09_check_full_fast_agrees.
+
+Theorem C09_check_full_fast_entry_cover : forall t,
+  t_nth 0 (c09_check_full_fast t) = of_bool true <->
+  ExactCover (norm_graph (t_pairs (t_nth 0 t))) (t_nat (t_nth 1 t)) (t_natss (t_nth 2 t)).
+Proof. exact check_full_fast_entry_cover. Qed.
+Print Assumptions C09_check_full_fast_entry_cover.
+
+Theorem C09_check_full_fast_entry_empty : forall t,
+  t_nth 1 (c09_check_full_fast t) = of_bool true <-> t_bool (t_nth 3 t) = false.
+Proof. exact check_full_fast_entry_empty. Qed.
+Print Assumptions C09_check_full_fast_entry_empty.
+
+Theorem C09_check_full_fast_entry_isolated : forall t,
+  t_nth 2 (c09_check_full_fast t) = of_bool true <->
+  IsolatedIntact (norm_graph (t_pairs (t_nth 0 t))) (t_nat (t_nth 1 t)) (t_natss (t_nth 2 t)).
+Proof. exact check_full_fast_entry_isolated. Qed.
+Print Assumptions C09_check_full_fast_entry_isolated.
+
 Theorem C09_max_cliques_sound :
   forall g K, In K (max_cliques g) -> max_clique g K /\ subseq K (verts g).
 Proof. exact max_cliques_sound. Qed.
@@ -165,3 +226,31 @@ Example C09_check_cover_entry_discriminates :
   c09_check_cover (L [es; of_nat 3; of_natss [[20;21;22;41];[22;30];[30;41]]; of_bool false]) = L [of_bool false; of_bool true] /\
   c09_check_cover (L [es; of_nat 4; of_natss [[20;21;22;41];[22;30];[30;41]]; of_bool true]) = L [of_bool true; of_bool false].
 Proof. vm_compute. repeat split; reflexivity. Qed.
+
+(* non-vacuity of the fast isolated-clique clause (hypothesis: loopless): a loop-free graph with two triangles sharing
+   an edge, an isolated triangle, an isolated K4 and a pendant edge; sparse labels, edges in both orientations.  The
+   test accepts the cover that keeps the isolated cliques whole, rejects (third clause only) an exact cover that splits the
+   isolated triangle, accepts the split K4 when the bound is 3 (the K4 is above the bound), and agrees with the brute force. *)
+Example C09_check_full_fast_discriminates :
+  let g := [(21,20);(21,22);(20,22);(23,21);(22,23);(30,31);(31,32);(32,30);(40,41);(40,42);(43,40);(41,42);(41,43);(42,43);(50,20)] in
+  let es := of_pairs g in
+  let good := [[20;21;22];[21;23];[22;23];[30;31;32];[40;41;42;43];[20;50]] in
+  let split := [[20;21;22];[21;23];[22;23];[30;31];[31;32];[30;32];[40;41;42;43];[20;50]] in
+  let split4 := [[20;21;22];[21;23];[22;23];[30;31;32];[40;41;42];[40;43];[41;43];[42;43];[20;50]] in
+  loopless g /\
+  c09_check_full_fast (L [es; of_nat 4; of_natss good; of_bool false]) = L [of_bool true; of_bool true; of_bool true] /\
+  c09_check_full_fast (L [es; of_nat 4; of_natss split; of_bool false]) = L [of_bool true; of_bool true; of_bool false] /\
+  c09_check_full_fast (L [es; of_nat 4; of_natss split4; of_bool false]) = L [of_bool true; of_bool true; of_bool false] /\
+  c09_check_full_fast (L [es; of_nat 3; of_natss split4; of_bool false]) = L [of_bool true; of_bool true; of_bool true] /\
+  isolated_ok_b (norm_graph g) 4 split = false /\ isolated_ok_b (norm_graph g) 3 split4 = true /\
+  isolated_ok_fast_b g 4 split = false /\ isolated_ok_fast_b g 3 split4 = true.
+Proof.
+  cbv zeta. split.
+  - intros e He. cbn [In] in He. repeat (destruct He as [He | He]; [subst e; cbn [fst snd]; discriminate |]). destruct He.
+  - vm_compute. repeat split; reflexivity.
+Qed.
+
+(* both verdicts occur often among the probes of the bounded comparison *)
+Example C09_fast_probe_counts :
+  count_verdicts (all_graphs 5) [1; 2; 3; 4; 5; 6] = (13557%N, 4875%N).
+Proof. exact graphs5_verdict_counts. Qed.
